@@ -208,6 +208,7 @@ class Interp:
         self.n_fresh = 0
         self.feas_timeout_ms = feas_timeout_ms
         self.paths_pruned = 0
+        self._raise_frames: List[List[St]] = [[]]
         self.builtins = {"print": Noop(), "len": sym_len, "abs": abs, "min": min, "max": max, "range": range,
                          "isinstance": isinstance, "tuple": tuple, "list": list, "int": int, "float": float,
                          "True": True, "False": False, "None": None, "set": set, "dict": dict, "sum": sum,
@@ -282,6 +283,8 @@ class Interp:
 
     def ev_Attribute(self, e, st):
         v = self.ev(e.value, st)
+        if hasattr(v, "pyvc_getattr"):
+            return v.pyvc_getattr(e.attr, self, st)
         try:
             return getattr(v, e.attr)
         except AttributeError:
@@ -450,14 +453,18 @@ class Interp:
         m = getattr(self, "st_" + type(s).__name__, None)
         if m is None:
             raise PyvcUnsupported(f"statement {type(s).__name__} (line {s.lineno})")
+        self._raise_frames.append([])
         try:
-            return m(s, st)
+            out = m(s, st)
+            return out + self._raise_frames[-1]
         except UnboundLocal as u:
             # reaching a read of an unbound local is a run-time error of the real code
             self.oblige(st, f"safety.no-unbound-local[{u.args[0]}]@L{s.lineno}", z3.BoolVal(False),
                         {"line": s.lineno, "var": u.args[0]})
             st.sig, st.val = RAISE, "UnboundLocalError"
-            return [st]
+            return [st] + self._raise_frames[-1]
+        finally:
+            self._raise_frames.pop()
 
     def bind(self, target, value, st: St):
         if isinstance(target, ast.Name):
@@ -543,6 +550,92 @@ class Interp:
         st.sig = RAISE
         st.val = ast.unparse(s.exc) if s.exc is not None else "re-raise"
         return [st]
+
+    def may_raise(self, st: St, cond, exc_name: str):
+        """called by a contract stub: the callee raises ``exc_name`` when ``cond``.  The raising path is a fork of the state at the
+        call (effects of earlier calls in the same statement included, the statement's own binding not), attributed to the
+        statement being executed; the current state continues under ``not cond``."""
+        cond = z3.simplify(cond) if isinstance(cond, z3.ExprRef) else z3.BoolVal(bool(cond))
+        if z3.is_false(cond):
+            return
+        if self.feasible(st, cond):
+            r = st.fork()
+            r.assume(cond)
+            r.sig, r.val = RAISE, exc_name
+            self._raise_frames[-1].append(r)
+        st.assume(z3.Not(cond))
+
+    _EXC_PARENTS = {"IOError": "OSError", "EnvironmentError": "OSError", "FileNotFoundError": "OSError", "OSError": "Exception",
+                    "ValueError": "Exception", "IndexError": "LookupError", "KeyError": "LookupError", "LookupError": "Exception",
+                    "TypeError": "Exception", "AttributeError": "Exception", "RuntimeError": "Exception", "StopIteration": "Exception",
+                    "UnboundLocalError": "NameError", "NameError": "Exception", "ZeroDivisionError": "ArithmeticError",
+                    "ArithmeticError": "Exception", "UnicodeError": "ValueError", "Exception": "BaseException"}
+
+    @classmethod
+    def _exc_name(cls, val):
+        m = __import__("re").match(r"[A-Za-z_][A-Za-z_0-9.]*", str(val))
+        n = m.group(0).split(".")[-1] if m else str(val)
+        return "OSError" if n in ("IOError", "EnvironmentError") else n
+
+    @classmethod
+    def _catches(cls, handler_names, exc) -> Optional[bool]:
+        """True / False, or None when the class of the raised exception is not known (both outcomes explored)"""
+        if exc in ("*", "re-raise"):
+            return None
+        hn = {cls._exc_name(h) for h in handler_names}
+        e, seen = exc, 0
+        while e is not None and seen < 12:
+            if e in hn:
+                return True
+            e, seen = cls._EXC_PARENTS.get(e), seen + 1
+        if exc not in cls._EXC_PARENTS and exc != "BaseException":
+            return None
+        return False
+
+    def st_Try(self, s, st):
+        ends = self.run_block(s.body, [st])
+        out = []
+        for e_ in ends:
+            if e_.sig != RAISE:
+                out += self.run_block(s.orelse, [e_]) if (s.orelse and e_.sig == NORMAL) else [e_]
+                continue
+            exc = self._exc_name(e_.val)
+            pending = [e_]
+            for h in s.handlers:
+                if not pending:
+                    break
+                if h.type is None:
+                    names = ["BaseException"]
+                elif isinstance(h.type, ast.Tuple):
+                    names = [ast.unparse(x) for x in h.type.elts]
+                else:
+                    names = [ast.unparse(h.type)]
+                c = True if "BaseException" in names else self._catches(names, exc)
+                nxt = []
+                for p_ in pending:
+                    if c is None:
+                        q = p_.fork()
+                        nxt.append(q)
+                    if c or c is None:
+                        p_.sig, p_.val = NORMAL, None
+                        if h.name:
+                            p_.env[h.name] = "<exception>"
+                        out += self.run_block(h.body, [p_])
+                    else:
+                        nxt.append(p_)
+                pending = nxt
+            out += pending
+        if s.finalbody:
+            fin = []
+            for e_ in out:
+                sig, val = e_.sig, e_.val
+                e_.sig, e_.val = NORMAL, None
+                for f_ in self.run_block(s.finalbody, [e_]):
+                    if f_.sig == NORMAL:
+                        f_.sig, f_.val = sig, val
+                    fin.append(f_)
+            out = fin
+        return out
 
     def st_With(self, s, st):
         """with <expr> as <name>: the context manager model supplies pyvc_enter(interp, st) / pyvc_exit(interp, st, signal)"""
